@@ -141,14 +141,24 @@ Fixpoint bparts_ok (bs : list bpart) : bool :=
 
 (** ** Names: a sequence of quoted or braced segments, optionally separated by
     horizontal space (which is then part of the name, as in the implementation). *)
-Inductive seg := SQ (q : N) (ms : list cmode) (x : str) | SB (bs : list bpart).
+Inductive seg := SQ (q : N) (ms : list cmode) (x : str) | SB (bs : list bpart) | SN (x : str).
+    (* quoted | braced | naked chunk *)
+
+(** A naked chunk is a match of the naked_string pattern: first character not
+    special and not whitespace, inner characters not special and not a line
+    break, last character not whitespace. *)
+Definition naked_textb (A : str) : bool :=
+  match A with
+  | c0 :: A' => naked_edge c0 && forallb naked_mid A' && negb (is_ws (last A 0))
+  | [] => false
+  end.
 
 Definition print_seg (sg : seg) : str :=
-  match sg with SQ q ms x => print_quoted q ms x | SB bs => print_braced bs end.
+  match sg with SQ q ms x => print_quoted q ms x | SB bs => print_braced bs | SN x => x end.
 Definition seg_parts (sg : seg) : svs :=
-  match sg with SQ _ _ x => [PStr x] | SB bs => map bpart_val bs end.
+  match sg with SQ _ _ x => [PStr x] | SB bs => map bpart_val bs | SN x => [PStr x] end.
 Definition seg_ok (sg : seg) : bool :=
-  match sg with SQ q _ _ => (q =? 34) || (q =? 39) | SB bs => bparts_ok bs end.
+  match sg with SQ q _ _ => (q =? 34) || (q =? 39) | SB bs => bparts_ok bs | SN x => naked_textb x end.
 (** [String.offset]: the first substring's offset - the opening quote / brace, or
     the number itself when a brace group starts with a number. *)
 Definition seg_first_off (sg : seg) (o : N) : N :=
@@ -167,7 +177,17 @@ Definition name_val (nm : name) : svs := svs_norm (name_parts nm).
 Definition name_off (nm : name) (o : N) : N := seg_first_off (nm_first nm) o.
 
 Definition more_ok (l : list (str * seg)) : bool := forallb (fun p => hsp_run (fst p) && seg_ok (snd p)) l.
-Definition name_ok (nm : name) : bool := seg_ok (nm_first nm) && more_ok (nm_more nm).
+
+(** Two naked chunks are never neighbours (with or without horizontal space
+    between them they would be ONE naked chunk). *)
+Definition is_naked (sg : seg) : bool := match sg with SN _ => true | _ => false end.
+Fixpoint adj_ok (prev : seg) (l : list (str * seg)) : bool :=
+  match l with
+  | [] => true
+  | (_, sg) :: r => negb (is_naked prev && is_naked sg) && adj_ok sg r
+  end.
+Definition name_ok (nm : name) : bool :=
+  seg_ok (nm_first nm) && more_ok (nm_more nm) && adj_ok (nm_first nm) (nm_more nm).
 
 (** A name used as an ingredient WITHOUT an amount must not look like an
     explicit quantity: a leading brace group must not start (after horizontal
@@ -176,18 +196,27 @@ Definition ref_name_ok (nm : name) : bool :=
   match nm_first nm with
   | SQ _ _ _ => true
   | SB bs => stopsb is_digit (snd (span is_hsp (print_bparts bs ++ [125])))
+  | SN x =>
+      (* not a number, not a remainder word followed by a word boundary *)
+      match x with c :: _ => negb (is_digit c) | [] => false end
+      && match sc_remainder (x ++ [44]) with None => true | Some _ => false end
   end.
 
 (** Fuel the scanners need for a name. *)
 Definition seg_cost (sg : seg) : nat :=
-  match sg with SQ _ _ _ => O | SB bs => S (fold_right (fun b n => (match b with BStr x _ => List.length x | BNum _ => 1 end + n)%nat) O bs) end.
+  match sg with SQ _ _ _ | SN _ => O | SB bs => S (fold_right (fun b n => (match b with BStr x _ => List.length x | BNum _ => 1 end + n)%nat) O bs) end.
 Definition name_cost (nm : name) : nat :=
   S (S (seg_cost (nm_first nm) + fold_right (fun p n => S (seg_cost (snd p) + n)) O (nm_more nm))).
 
 (** What may follow a name: after horizontal space, not the start of another
     string segment. *)
 Definition seg_start (c : N) : bool := naked_edge c || (c =? 34) || (c =? 39) || (c =? 123).
-Definition name_followb (k : str) : bool := stopsb seg_start (snd (span is_hsp k)).
+(** ... and a naked chunk must END there: after whitespace that a naked
+    string could swallow (anything but a line break), no character that
+    could continue it. *)
+Definition nkws (c : N) : bool := is_ws c && naked_mid c.
+Definition naked_stopb (k : str) : bool := stopsb naked_mid (snd (span nkws k)).
+Definition name_followb (k : str) : bool := stopsb seg_start (snd (span is_hsp k)) && naked_stopb k.
 
 (** ** Amounts (the part of the family proved so far: see Props/C06.v) *)
 
@@ -215,19 +244,20 @@ Inductive amt :=
 | AmOf (t : ntext) (w : str) (pw : pword)                   (* 1/2 of the 'sauce' *)
 | AmPercent (t : ntext) (w : str) (p : oprep)               (* 50 % of 'sauce' *)
 | AmStar (t : ntext) (w : str)                              (* 1/2 * 'sauce' *)
-| AmExplicit (t : ntext) (w0 : str) (u : option (str * N * str)) (w1 : str) (p : oprep).
-    (* "{" w0 number [sp QUOTED-unit] w1 "}" [preposition] :  {2 "sprigs"} of 'thyme';  u = Some (sp, quote, text) *)
+| AmExplicit (t : ntext) (w0 : str) (u : option (str * name)) (w1 : str) (p : oprep).
+    (* "{" w0 number [sp free-form-unit] w1 "}" [preposition] :  {2 big "sprigs"} of 'thyme';  u = Some (sp, unit);
+       the unit is a static string: naked chunks and quoted segments, optionally separated by horizontal space *)
 
 Definition amt_num (a : amt) : ntext :=
   match a with
   | AmNum t | AmUnit t _ _ _ _ | AmOf t _ _ | AmPercent t _ _ | AmStar t _ | AmExplicit t _ _ _ _ => t
   | AmRem _ _ => NTInt 0 0       (* unused *)
   end.
-Definition unit_text (u : option (str * N * str)) : str :=
-  match u with Some (sp, q, x) => sp ++ q :: x ++ [q] | None => [] end.
+Definition unit_text (u : option (str * name)) : str :=
+  match u with Some (sp, un) => sp ++ print_name un | None => [] end.
 (** The inside of an explicit quantity seen as a brace group (that is how a
     NAME tried on it reads it). *)
-Definition explicit_bparts (t : ntext) (w0 : str) (u : option (str * N * str)) (w1 : str) : list bpart :=
+Definition explicit_bparts (t : ntext) (w0 : str) (u : option (str * name)) (w1 : str) : list bpart :=
   (match w0 with [] => [] | _ => [BStr w0 []] end) ++ BNum t ::
   (match unit_text u ++ w1 with [] => [] | T => [BStr T []] end).
 Definition amt_lead (a : amt) : str :=
@@ -260,8 +290,8 @@ Definition amt_val (a : amt) : amount :=
   | AmPercent t w p => AProp (PropVal (percent_of (ntext_val t)) true (w ++ 37 :: oprep_str p))
   | AmStar t w => AProp (PropVal (ntext_val t) false (w ++ [42]))
   | AmExplicit t _ u _ p =>
-      AQty (mkQ (ntext_val t) (match u with Some (_, _, x) => Some x | None => None end)
-                (match u with Some (sp, _, _) => sp | None => [] end) (oprep_str p))
+      AQty (mkQ (ntext_val t) (match u with Some (_, un) => Some (parts_text (name_parts un)) | None => None end)
+                (match u with Some (sp, _) => sp | None => [] end) (oprep_str p))
   end.
 
 (** [m] is the word [w] in some letter case (as the regex engine's IGNORECASE sees it). *)
@@ -303,21 +333,19 @@ Definition unit_ok (n v : str) : bool :=
 Definition tail_text_ok (T : str) : bool :=
   forallb naked_mid T && (is_nil T || negb (is_ws (last T 0))).
 
-Definition naked_textb (A : str) : bool :=
-  match A with
-  | c0 :: A' => naked_edge c0 && forallb naked_mid A' && negb (is_ws (last A 0))
-  | [] => false
-  end.
-
 Definition rword_ok (rw : rword) : bool :=
   match rw with
   | RwWord k m => Nat.ltb k 3 && ci_wordb (rword_target k) m
   | RwLeftOver l w o => ci_wordb (s "left") l && hsp_run w && ci_wordb (s "over") o
   end.
 
-(** Characters of an explicit quantity's quoted unit: written raw, nothing
-    that needs an escape and nothing a brace group treats specially. *)
-Definition unit_char (q c : N) : bool := raw_ok_q q c && raw_ok_b c.
+(** A free-form unit: no brace segments; and its text has nothing a brace
+    group treats specially (no digits, braces, backslashes - hence no escapes),
+    because a NAME is tried on the whole reference first and reads the explicit
+    quantity as a brace group. *)
+Definition static_seg (sg : seg) : bool := match sg with SB _ => false | _ => true end.
+Definition static_name (un : name) : bool :=
+  static_seg (nm_first un) && forallb (fun p => static_seg (snd p)) (nm_more un).
 
 Definition lead_ok (a : amt) : bool :=
   match a with
@@ -325,7 +353,7 @@ Definition lead_ok (a : amt) : bool :=
   | AmExplicit t w0 u w1 _ =>
       ntext_ok t && hsp_run w0 && hsp_run w1
       && match u with
-         | Some (sp, q, x) => hsp_run sp && ((q =? 34) || (q =? 39)) && forallb (unit_char q) x
+         | Some (sp, un) => hsp_run sp && name_ok un && static_name un && forallb raw_ok_b (print_name un)
          | None => true
          end
       && bparts_ok (explicit_bparts t w0 u w1)
@@ -348,7 +376,7 @@ Definition amt_ok (a : amt) : bool :=
 (** Fuel an amount needs (only a brace group does). *)
 Definition amt_cost (a : amt) : nat :=
   match a with
-  | AmExplicit t w0 u w1 _ => seg_cost (SB (explicit_bparts t w0 u w1))
+  | AmExplicit t w0 u w1 _ => S (seg_cost (SB (explicit_bparts t w0 u w1)))
   | _ => O
   end.
 Definition ref_amt_cost (a : option (amt * str)) : nat :=
@@ -455,6 +483,58 @@ Fixpoint value_stmts (l : list pstmt) (o : N) : list astmt :=
 Definition value_recipe (r : precipe) : list astmt := value_stmts (pr_stmts r) (len (pr_lead r)).
 
 (** ** Permitted spellings (side conditions) *)
+
+(** A name after an amount.  When its first segment is a naked chunk [X],
+    the chunk must not be taken for part of the amount.  The conditions are
+    stated with the model's own scanners on the probe text [X ++ ","]:
+      - [X] does not begin with a digit, ".", "%" or "*";
+      - no preposition ("of", "of the" + word boundary) starts [X];
+      - "the" + word boundary does not start [X] (it would join a preceding "of");
+      - no unit name + word boundary starts [X], and [X] is not the beginning
+        of a multi-word unit name up to one of its spaces;
+      - after a unit, a preposition or a remainder word there is horizontal
+        space, or [X] begins with a non-word character.
+    (harness/rgv/gen/programs.py [spell_name] / [dangerous_first_words] is a
+    stronger, word-list form of the same conditions.) *)
+Definition is_none {A} (x : option A) : bool := match x with None => true | Some _ => false end.
+
+(** The literal prefixes of a unit alternative that end before one of its [\s+]. *)
+Fixpoint ws_prefixes (alt : list piece) : list (list piece) :=
+  match alt with
+  | [] => []
+  | PWs :: rest => [] :: map (cons PWs) (ws_prefixes rest)
+  | PLit a :: rest => map (cons (PLit a)) (ws_prefixes rest)
+  end.
+
+Definition matches_all (ps : list piece) (X : str) : bool :=
+  existsb (fun p => is_nil (snd p)) (Units.match_pieces known_unit_ci ps X).
+
+Definition not_unit_prefix (X : str) : bool :=
+  forallb (fun alt => forallb (fun p1 => negb (matches_all p1 X)) (ws_prefixes alt)) unit_regex_alts.
+
+Definition the_probe (X : str) : bool :=
+  is_none (with_boundary (Units.match_ci_lit [116; 104; 101] (X ++ [44]))).
+
+Definition needs_bnd (am : amt) : bool :=
+  match am with
+  | AmNum _ | AmStar _ _ | AmPercent _ _ None | AmExplicit _ _ _ _ None => false
+  | _ => true
+  end.
+
+Definition naked_after_amt_ok (am : amt) (w X : str) : bool :=
+  match X with
+  | c :: _ =>
+      negb (is_digit c) && negb (c =? 46) && negb (c =? 37) && negb (c =? 42)
+      && is_none (Units.preposition (X ++ [44]))
+      && the_probe X
+      && is_none (Units.known_unit (X ++ [44])) && not_unit_prefix X
+      && (negb (needs_bnd am) || negb (is_nil w) || negb (Units.is_word c))
+  | [] => false
+  end.
+
+Definition after_amt_ok (am : amt) (w : str) (nm : name) : bool :=
+  match nm_first nm with SN X => naked_after_amt_ok am w X | _ => true end.
+
 Definition ws_run (w : str) : bool := forallb is_ws w.
 
 Definition acts_ok (acts : list (str * str * name)) : bool :=
@@ -463,7 +543,7 @@ Definition acts_ok (acts : list (str * str * name)) : bool :=
 Fixpoint expr_ok (e : pexpr) : bool :=
   match e with
   | XRef None nm => name_ok nm && ref_name_ok nm
-  | XRef (Some (am, w)) nm => amt_ok am && hsp_run w && name_ok nm
+  | XRef (Some (am, w)) nm => amt_ok am && hsp_run w && name_ok nm && after_amt_ok am w nm
   | XStep nm w s0 first more trail s1 =>
       name_ok nm && hsp_run w && ws_run s0 && expr_ok first
       && forallb (fun p => ws_run (fst (fst p)) && ws_run (snd (fst p)) && expr_ok (snd p)) more
@@ -510,7 +590,7 @@ Definition stmt_cost (st : pstmt) : nat :=
 (** What may follow an expression: after horizontal space, neither the start
     of a string segment nor an opening parenthesis. *)
 Definition expr_followb (k : str) : bool :=
-  stopsb (fun c => seg_start c || (c =? 40)) (snd (span is_hsp k)).
+  stopsb (fun c => seg_start c || (c =? 40)) (snd (span is_hsp k)) && naked_stopb k.
 
 (** ** Abstract syntax up to source offsets (two spellings of one description
     put the same things at different offsets). *)
